@@ -58,6 +58,59 @@ static int kernel_registration(int epfd, int tfd, unsigned *mask, int *nreg)
 static unsigned cond_mask(int r, int w, int c) { return (r ? M_IN : 0) | (w ? M_OUT : 0) | (c ? M_RDH : 0); }
 static const char *chs(int c) { return c == 0 ? "0" : c == 1 ? "add" : c == 2 ? "del" : "add+del"; }
 
+/* Part 2 (cases 1024..1247): the same question asked at the backend's real entry points without changelist,
+ * epoll_nochangelist_add/_del(base, fd, old, events): for every old in {r,w,c}* x every non-empty events x add/del x ET
+ * that evmap can produce (add: events disjoint from old; del: events contained in old) the kernel must end up with
+ * old U events resp. old \ events through exactly one accepted epoll_ctl (seed C06-3: the table was right, the caller
+ * built the wrong "old" half of the index). */
+static void entry_point_case(long k, struct event_base *fake_base)
+{
+	int et = (int)(k & 1), del = (int)((k >> 1) & 1), evs = (int)((k >> 2) % 7) + 1, oldb = (int)((k >> 2) / 7);
+	int oldr = oldb & 1, oldw = (oldb >> 1) & 1, oldc = (oldb >> 2) & 1;
+	int er = evs & 1, ew = (evs >> 1) & 1, ec = (evs >> 2) & 1;
+	unsigned old = cond_mask(oldr, oldw, oldc), ev = cond_mask(er, ew, ec), want, got = 0;
+	short oldev = (short)((oldr ? EV_READ : 0) | (oldw ? EV_WRITE : 0) | (oldc ? EV_CLOSED : 0));
+	short events = (short)((er ? EV_READ : 0) | (ew ? EV_WRITE : 0) | (ec ? EV_CLOSED : 0) | (et ? EV_ET : 0));
+	int epfd, sv[2], r, reg, nreg = 0;
+	struct epollop eop;
+	char desc[160];
+	if (oldb > 7) return;
+	vh_stat("cases");
+	snprintf(desc, sizeof(desc), "entry=%s old=%s%s%s events=%s%s%s et=%d", del ? "nochangelist_del" : "nochangelist_add",
+		oldr ? "r" : "", oldw ? "w" : "", oldc ? "c" : "", er ? "r" : "", ew ? "w" : "", ec ? "c" : "", et);
+	if (del ? (ev & ~old) != 0 : (ev & old) != 0) { vh_stat("entry_point_not_producible"); return; }
+	epfd = epoll_create1(EPOLL_CLOEXEC);
+	if (epfd < 0 || socketpair(AF_UNIX, SOCK_STREAM, 0, sv) < 0) { fprintf(stderr, "setup failed: %s\n", strerror(errno)); exit(2); }
+	if (old) {
+		struct epoll_event e;
+		memset(&e, 0, sizeof(e));
+		e.events = old | (et ? M_ET : 0); e.data.fd = sv[0];
+		if (__real_epoll_ctl(epfd, EPOLL_CTL_ADD, sv[0], &e) != 0) { fprintf(stderr, "raw epoll_ctl failed: %s\n", strerror(errno)); exit(2); }
+	}
+	want = del ? (old & ~ev) : (old | ev);
+	if (want && et) want |= M_ET;
+	memset(&eop, 0, sizeof(eop));
+	eop.epfd = epfd;
+	fake_base->evbase = &eop;
+	n_ctl = n_ctl_fail = 0; first_ctl_res = 0; first_ctl_errno = 0; first_ctl_op = 0;
+	sf_observer = obs;
+	r = del ? epoll_nochangelist_del(fake_base, sv[0], oldev, events, NULL) : epoll_nochangelist_add(fake_base, sv[0], oldev, events, NULL);
+	sf_observer = NULL;
+	fake_base->evbase = NULL;
+	reg = kernel_registration(epfd, sv[0], &got, &nreg);
+	if (reg < 0) { fprintf(stderr, "cannot parse fdinfo\n"); exit(2); }
+	got = reg ? (got & M_ALL) : 0;
+	vh_stat(del ? "entry_point_del" : "entry_point_add");
+	if (r != 0) vh_viol("C06:entry-point-failed", "%s: returned %d (first ctl op=%d errno=%d)", desc, r, first_ctl_op, first_ctl_errno);
+	if (got != want || nreg != (want ? 1 : 0))
+		vh_viol("C06:entry-point-wrong-registration", "%s: kernel has %#x (%d registrations), desired %#x", desc, got, nreg, want);
+	if (n_ctl != 1 || n_ctl_fail)
+		vh_viol("C06:entry-point-first-try-rejected", "%s: %d epoll_ctl calls, %d failed; first op=%d errno=%d (%s)", desc, n_ctl, n_ctl_fail,
+			first_ctl_op, first_ctl_errno, strerror(first_ctl_errno));
+	vh_distinct(vh_hash_bytes(7, &k, sizeof(k)));
+	__real_close(sv[0]); __real_close(sv[1]); __real_close(epfd);
+}
+
 int main(int argc, char **argv)
 {
 	long idx;
@@ -71,6 +124,7 @@ int main(int argc, char **argv)
 
 	while (vh_next_case(&idx, &rng)) {
 		int ti = (int)((idx >> 1) & 511), et = (int)(idx & 1);
+		if (idx >= 1024) { entry_point_case(idx - 1024, fake_base); continue; }
 		/* documented bit layout (epolltable-internal.h comment):
 		 * bit0 close add, bit1 close del, bit2 read add, bit3 read del,
 		 * bit4 write add, bit5 write del, bit6 old R, bit7 old W, bit8 old CLOSED */
